@@ -63,7 +63,8 @@ def range($from;$upto;$by):
     if $by > 0 then $from|while(. < $upto; . + $by)
     elif $by < 0 then $from|while(. > $upto; . + $by)
     else empty end;
-def limit($n; f): if $n > 0 then label $out | foreach f as $item (0; .+1; $item, if . >= $n then break $out else empty end) elif $n == 0 then empty else f end;
+def _limit_j($n; f): if $n > 0 then label $out | foreach f as $item (0; .+1; $item, if . >= $n then break $out else empty end) elif $n == 0 then empty else f end;
+def limit($n; f): _limit_j($n; f);
 def first(f): label $out | (f | ., break $out);
 def isempty(g): label $go | (g|false, break $go), true;
 def all(generator; condition): isempty(first(generator|condition and empty));
@@ -104,7 +105,8 @@ def fromstream(f): { x: null, e: false } as $init
 def truncate_stream(stream): . as $n | null | stream | . as $input | if (.[0]|length) > $n then setpath([0];.[0][$n:]) else empty end;
 def pick(pathexps): . as $top | reduce path(pathexps) as $p (null; setpath($p; $top | getpath($p)));
 def _last_s(f): reduce (f | [.]) as $x (null; $x) | if . == null then empty else .[0] end;
-def _nth_s($n; f): if $n < 0 then error(\"Out of bounds negative array index\") else label $out | foreach f as $item (-1; .+1; if . == $n then $item, break $out else empty end) end;
+def _limit_s($n; f): if ($n|type) == \"number\" and $n == ($n|floor) and $n < 4611686018427387904 and $n > -4611686018427387904 then _limit_j($n; f) else _unmodelled end;
+def _nth_s($n; f): if $n < 0 then error(\"nth doesn't support negative indices\") else label $out | foreach f as $item (-1; .+1; if . == $n then $item, break $out else empty end) end;
 def _reverse_s: if type == \"array\" then [.[length - 1 - range(0;length)]] else _unmodelled end;
 def _flatten_s: _flatten(1);
 def _flatten1_s($x): if $x < 0 then _unmodelled else _flatten($x) end;
@@ -141,6 +143,10 @@ def bsearch($target):
       else .[2]
       end
   end;
+def todate: strftime(\"%Y-%m-%dT%H:%M:%SZ\");
+def fromdateiso8601: strptime(\"%Y-%m-%dT%H:%M:%SZ\")|mktime;
+def todateiso8601: strftime(\"%Y-%m-%dT%H:%M:%SZ\");
+def fromdate: fromdateiso8601;
 def finites: select(isinfinite or isnan | not);
 .
 "
